@@ -14,7 +14,7 @@ from .common import attr, var
 LEVEL_TEXT = ('Static decision by interprocedural write-effect analysis over the points-to relation: for each of the '
               'shipped Problem.Calculate implementations and everything they call, every mutation site targets only '
               'objects allocated inside that call tree or the .value of the supplied holder; the point is never '
-              'written; every path stores .value and returns the supplied holder; constructors and generators write '
+              'written; every path on which a holder is supplied stores .value - a value that does not read the previous content of the holder - and returns that holder; constructors and generators write '
               'only objects they allocate themselves; module tables are never written; no nondeterminism source; problem '
               'code restores any process-wide interpreter / numpy state it changes.')
 EXPLANATION = ('Purity is a property of the code shape: a function whose transitive write set is {holder.value} plus '
@@ -153,10 +153,23 @@ def r15_3(ctx: Ctx):
     n = 0
     for calc in shipped_calcs(ctx):
         holder = var(calc.param_names[2])
+        hk = key_of(holder)
         for p in ex.explore(calc):
             if p.outcome == 'raise':
                 continue
+            if any(str(g) in (f'{calc.param_names[2]} is None', f'{calc.param_names[2]} == None') for g in p.guards):
+                continue        # no holder was supplied on this path (an optional parameter): nothing to return it in
             n += 1
+            # the value is a function of the point alone: what is stored does not read what the holder held before
+            fin = p.state.heap.get((hk, 'value'))
+            if isinstance(fin, RF):
+                prior = [a for a in fin.atoms() if isinstance(a, tuple) and len(a) >= 3 and a[0] == 'attr' and
+                         a[1] == hk and a[2] == 'value']
+                ctx.check(not prior, rid, calc.short, calc.loc(),
+                          'the stored value does not depend on what the holder held before',
+                          f'{calc.short} computes the value from the previous content of the holder '
+                          f'({C.fmt(fin)[:80]}): evaluating into a holder that was used before adds the new value to the '
+                          f'old one, so the result depends on earlier evaluations', key=f'{rid}::{calc.short}::accumulates')
             sts = C.stores_to(p, base=holder, field='value', tkind='attr', depth=0)
             ctx.check(bool(sts), rid, calc.short, calc.loc(), 'the path stores the result in holder.value',
                       'a path of Calculate returns without storing a value in the supplied holder',
